@@ -591,6 +591,17 @@ def r6_oracle_map(repo):
     return obs
 
 
+def r7_output_analysed(repo):
+    """a fault is reported exactly on a mismatch between oracle and *compiler verdict*: the verdict is computed from the
+    compiler's output on every call (shared with C14-R4)"""
+    from .c14 import r4_order
+    out = []
+    for o in r4_order(repo):
+        if o.key == "check_oracle:output-analysed-on-every-call":
+            out.append(Ob("C15-R7", o.key, o.where, o.ok, o.msg, o.facts))
+    return out
+
+
 def rules():
     return [
         RuleSpec("C15-R1", "decision table of check_oracle vs specification (16 rows)", 19, r1_table),
@@ -599,6 +610,8 @@ def rules():
         RuleSpec("C15-R4", "cleanup of non-faulty programs and of the session tmp directory", 4, r4_cleanup),
         RuleSpec("C15-R5", "counter arithmetic (update_stats, save_stats, _run)", 10, r5_counters),
         RuleSpec("C15-R6", "oracle map and failure flag built by gen_program", 3, r6_oracle_map),
+        RuleSpec("C15-R7", "the compiler's output is analysed on every call (verdicts never assumed from the exit status)", 1,
+                 r7_output_analysed),
     ]
 
 
